@@ -1,4 +1,4 @@
-import Vore.Lemmas.Json
+import Vore.Lemmas.JsonWF
 /-!
 # C17 — JSON output is valid and carries the match data unchanged
 
@@ -46,6 +46,19 @@ theorem C17_wellformed (ms : List FileMatch) (h : ∀ fm ∈ ms, fm.m.vars.WF) :
 theorem C17_put_wf (f : VMap) (k : String) (v : Val) (hf : f.WF) (hv : v.WF) :
     (f.put k v).WF ∧ VMap.nil.WF :=
   ⟨VMap.wf_put f k v hf hv, VMap.wf_nil⟩
+
+/-- … and the engine does guarantee it: for every instruction list, text, file name and
+fuel, the variables of every match `runProgram` (`engine.Run`) returns are finite maps at
+every depth (invariant of every VM instruction and of every saved state, `Lemmas/JsonWF.lean`),
+so every object of the rendered tree has pairwise distinct member names. -/
+theorem C17_engine_results_wellformed (pf vf : Nat) (fn text : Bytes) (cs : List BCmd) (ms : List Match)
+    (h : runProgram pf vf fn text cs = some (.ok ms)) :
+    (ofMatches (ms.map (fun m => (⟨fn, m⟩ : FileMatch)))).WF := by
+  apply C17_wellformed
+  intro fm hfm
+  simp only [List.mem_map] at hfm
+  obtain ⟨m, hm, rfl⟩ := hfm
+  exact runProgram_wf pf vf fn text cs ms h m hm
 
 /-- The two renderings are printings of one tree: whatever faithful printer/reader pair
 `encoding/json` is, reading `Matches.Json()` and reading `Matches.FormattedJson()` give the
@@ -96,6 +109,11 @@ def C17_trivialCodec : Codec (Json × Bool) :=
 
 example : C17_trivialCodec.Faithful := fun _ => ⟨rfl, rfl⟩
 
+/-- `find all 'a' = x` on the text `a`: the hypothesis of `C17_engine_results_wellformed` is satisfiable -/
+example : ∃ ms, runProgram 10 100 [116] [97]
+    [.find ⟨true, 0, 0, 0⟩ [.startVar "x", .lit false false [97], .endVar "x"]] = some (.ok ms) ∧ ms.length = 1 := by
+  refine ⟨_, rfl, rfl⟩
+
 example : (VMap.nil.put "a" (.str [1])).WF ∧ (Val.str [1]).WF := by
   simp [VMap.put, VMap.WF, Val.WF, VMap.get]
 
@@ -106,5 +124,6 @@ end Vore
 #print axioms Vore.C17_members
 #print axioms Vore.C17_wellformed
 #print axioms Vore.C17_put_wf
+#print axioms Vore.C17_engine_results_wellformed
 #print axioms Vore.C17_documents
 #print axioms Vore.C17_documents_exact
